@@ -2,10 +2,10 @@
     PROVED for all inputs, in full: greedy (LPT) and Karmarkar-Karp largest sum <= (4/3 - 1/(3k)) OPT (lpt_ratio_43, kk_ratio_43);
     greedy's smallest sum >= (3k-1)/(4k-2) OPTmin (lpt_min_exact); the gap largest - smallest <= largest item for greedy, Karmarkar-Karp and
     round-robin; round-robin's sums are non-increasing in bin index and its cardinalities differ by at most one.
-    PARTIAL: multifit largest <= (5/4 + 2^-it) OPT + 19/4 on the float model (the constant 1.22 of Coffman, Garey and Johnson is NOT proved:
+    PARTIAL: multifit largest <= (11/9 + 2^-it) OPT + 44/9 on the float model (11/9 = 1.2222...; 1/450 above the published constant) (the constant 1.22 of Coffman, Garey and Johnson is NOT proved:
     tested against the verified oracle opt_value and planted optima; the additive slack is the rounding of the float capacity search).
     Statements only; proofs in Proofs/{GreedyProofs,KKProofs,RatioProofs,KKRatio43Proofs,LPTMinExactProofs,MultifitRatioProofs,OracleSpec}.v. *)
-From Prtpy Require Import Base.Prelude Model.Binner Model.Objectives Model.Greedy Model.KK Model.Multifit Spec.Partition Oracle.Reach Proofs.GreedyProofs Proofs.KKProofs Proofs.CKKOptimal Proofs.RatioProofs Proofs.MultifitProofs Proofs.OracleSpec Proofs.KKRatioProofs Proofs.LPTMinProofs Proofs.LPTMinFullProofs Proofs.MultifitRatioProofs Proofs.KKRatio43Proofs Proofs.LPTMinExactProofs.
+From Prtpy Require Import Base.Prelude Model.Binner Model.Objectives Model.Greedy Model.KK Model.Multifit Spec.Partition Oracle.Reach Proofs.GreedyProofs Proofs.KKProofs Proofs.CKKOptimal Proofs.RatioProofs Proofs.MultifitProofs Proofs.OracleSpec Proofs.KKRatioProofs Proofs.LPTMinProofs Proofs.LPTMinFullProofs Proofs.MultifitRatioProofs Proofs.KKRatio43Proofs Proofs.LPTMinExactProofs Proofs.MultifitCapacityProofs.
 
 (** greedy: 3k * largest <= (4k - 1) * OPT, i.e. largest <= (4/3 - 1/(3k)) OPT *)
 Theorem C08_lpt_ratio_43 :
@@ -117,8 +117,8 @@ Theorem C08_multifit_ratio_2_partial :
 Proof. exact @multifit_ratio_2. Qed.
 Print Assumptions C08_multifit_ratio_2_partial.
 
-(** PARTIAL (constant 5/4 instead of 1.22, explicit rounding slack): 4 * 2^it * largest <= (5 * 2^it + 4) * OPT + 19 * 2^it, i.e. largest <= (5/4 + 2^-it) OPT + 19/4 (the slack comes from first-fit running at the integer part of the float capacity and from the rounding of the midpoints) *)
-Theorem C08_multifit_ratio_54_partial :
+(** PARTIAL (constant 11/9 = 1.2222 instead of 1.22, explicit rounding slack): 9 * 2^it * largest <= (11 * 2^it + 9) * OPT + 44 * 2^it, i.e. largest <= (11/9 + 2^-it) OPT + 44/9 (the slack comes from first-fit running at the integer part of the float capacity and from the rounding of the midpoints) *)
+Theorem C08_multifit_ratio_119_partial :
   forall (A : Type) (valueof : A -> Z) (it k : nat) (items : list A) (b : bins A) (opt : Z),
   items <> [] ->
   Forall (fun x : A => 0 <= valueof x) items ->
@@ -126,22 +126,22 @@ Theorem C08_multifit_ratio_54_partial :
   multifit valueof true it k items = Ok b ->
   Opt MinLargest k (map valueof items) opt ->
   zsum (map valueof items) <= 2 ^ 53 ->
-  4 * 2 ^ Z.of_nat it * zmax (sums b) <=
-  (5 * 2 ^ Z.of_nat it + 4) * opt + 19 * 2 ^ Z.of_nat it.
-Proof. exact @multifit_ratio_54. Qed.
-Print Assumptions C08_multifit_ratio_54_partial.
+  9 * 2 ^ Z.of_nat it * zmax (sums b) <=
+  (11 * 2 ^ Z.of_nat it + 9) * opt + 44 * 2 ^ Z.of_nat it.
+Proof. exact @multifit_ratio_119. Qed.
+Print Assumptions C08_multifit_ratio_119_partial.
 
-(** the capacity lemma behind it: first-fit-decreasing with an integer capacity c >= 5/4 T packs into k bins whenever a partition into k bins with sums <= T exists *)
-Theorem C08_ffd_capacity_54 :
+(** the capacity lemma behind it: first-fit-decreasing with an integer capacity c >= 11/9 T packs into k bins whenever a partition into k bins with sums <= T exists *)
+Theorem C08_ffd_capacity_119 :
   forall (k : nat) (T c : Z) (vs : list Z),
   (1 <= k)%nat ->
   Forall (fun v : Z => 0 <= v) vs ->
   Packable T vs k ->
-  5 * T <= 4 * c ->
+  11 * T <= 9 * c ->
   exists b : bins Z,
   Packing.first_fit idZ false c (sort_desc idZ vs) = Ok b /\ (length b <= k)%nat.
-Proof. exact @ffd_capacity_54. Qed.
-Print Assumptions C08_ffd_capacity_54.
+Proof. exact @ffd_capacity_119. Qed.
+Print Assumptions C08_ffd_capacity_119.
 
 (** the yardstick for the unproved constants: opt_value is the true optimum *)
 Theorem C08_opt_value_oracle :
